@@ -124,7 +124,7 @@ elab "inv_let" : tactic => withMainContext do
       let g1 ← mkFreshExprSyntheticOpaqueMVar (mkApp P v)
       let ty2 ← withLocalDeclD n ty fun x => do
         withLocalDeclD `hx (mkApp P x) fun hx => do
-          mkForallFVars #[x, hx] (mkApp P (k (b.instantiate1 x)))
+          mkForallFVars #[x, hx] (mkApp P (k ((b.instantiate1 x).replace fun e => if e == v then some x else none)))
       let g2 ← mkFreshExprSyntheticOpaqueMVar ty2
       g.assign (mkApp2 g2 v g1)
       let (_, g2') ← g2.mvarId!.introNP 2
@@ -180,7 +180,7 @@ elab "abs_let " x:ident hx:ident " : " T:term : tactic => withMainContext do
       let Te ← instantiateMVars Te
       let ty1 := (← mkLambdaFVars #[xv] Te).beta #[v]
       let ty2 ← withLocalDeclD hx.getId Te fun hv => do
-        mkForallFVars #[xv, hv] (mkApp Q (k (b.instantiate1 xv)))
+        mkForallFVars #[xv, hv] (mkApp Q (k ((b.instantiate1 xv).replace fun e => if e == v then some xv else none)))
       pure (ty1, ty2)
     let g1 ← mkFreshExprSyntheticOpaqueMVar ty1
     let g2 ← mkFreshExprSyntheticOpaqueMVar ty2
